@@ -731,7 +731,11 @@ pub struct UdpSocket {
 
 impl UdpSocket {
     pub async fn bind<A: ToBind>(addr: A) -> io::Result<UdpSocket> {
-        let mut addr = addr.to_bind()?;
+        Self::bind_now(addr.to_bind()?)
+    }
+
+    /// synchronous form of `bind` (the QUIC seam builds its endpoints outside an `async fn`)
+    pub fn bind_now(mut addr: SocketAddr) -> io::Result<UdpSocket> {
         world::with(|w| {
             let node = world::current_node();
             if w.take_fault(FaultKind::UdpBindErr, addr.port(), node) {
@@ -763,7 +767,12 @@ impl UdpSocket {
     }
 
     pub fn poll_send_to(&self, _cx: &mut Context<'_>, buf: &[u8], dst: SocketAddr) -> Poll<io::Result<usize>> {
-        Poll::Ready(world::with(|w| {
+        Poll::Ready(self.send_now(buf, dst))
+    }
+
+    /// a datagram socket never blocks in this model: it delivers, loses or refuses at once
+    pub fn send_now(&self, buf: &[u8], dst: SocketAddr) -> io::Result<usize> {
+        world::with(|w| {
             let node = w.udp[self.sid].owner;
             let from = concrete(w.udp[self.sid].addr);
             let t_ns = w.now_ns();
@@ -829,7 +838,7 @@ impl UdpSocket {
             w.udp_sends.push(rec);
             w.log(12, self.sid as u64, buf.len() as u64);
             Ok(buf.len())
-        }))
+        })
     }
 
     pub async fn recv_from(&self, buf: &mut [u8]) -> io::Result<(usize, SocketAddr)> {
